@@ -207,6 +207,24 @@ CLAIMED = {
              "its Horner polyval validated against NumPy); rank > 1; reads through tags (same "
              "DataView path as C08). Counterexamples are replayed with real floats on a real file.",
         ref="3 C15"),
+    "C01": dict(
+        text="PARTIAL - only the Python-side arithmetic and decisions of nixio are decided: "
+             "(i) DataSet.append for ranks 1-3 (quick) / 1-4 (thorough), ALL non-negative extents of the "
+             "array and of the appended block (unbounded integers), every axis: accepted iff same rank "
+             "and equal off-axis extents, then exactly one enlargement to old+k on that axis and one "
+             "write of the given data into the hyperslab [old, old+k) x full ranges; refused -> no "
+             "resize, no write. (ii) the dataset is gzip-compressed iff the first non-Auto of (array, "
+             "block, file) is DeflateNormal, for all 27 combinations. (iii) create_data_array: shape "
+             "from the data, an explicit shape must equal it, dtype = argument else the data's else "
+             "f8, unlimited maxshape on every axis, the data written once and whole. (iv) every index "
+             "expression (ints incl. 0 and negatives, slices, tuples, Ellipsis) and the value reach the "
+             "backend unchanged for reads and writes. (v) a read has the selection's shape, a scalar "
+             "becomes (1,).",
+        note="NOT decided and not claimed: that libhdf5/h5py return the stored elements bit for bit "
+             "for every element type, filter, rank and after close/reopen - that behaviour is not code "
+             "of this repository and cannot be executed symbolically. axis outside [0, rank) is outside "
+             "the asserted domain. Runs on fakeh5 (operation log of resize/write calls).",
+        ref="3 C01"),
 }
 
 NOT_APPLICABLE = {
